@@ -244,7 +244,7 @@ def strip(o):
 
 
 def budgets(tier):
-    return (10, 40) if tier == "quick" else (320, 60)
+    return (24, 40) if tier == "quick" else (320, 60)
 
 
 def explore_perm(pid, tier, seed, model_ok=True, focus=False, scale=1.0, kinds=KINDS, nh=None, nops=None):
